@@ -382,6 +382,49 @@ def on_lru(p, r, exc, acc):
     acc.sample(desc)
 
 
+# ------------------------------------------------------------------ the real lookup under environment variables a deployment may set
+ENVS = [{}, {"SOURCE_DATE_EPOCH": "past"}, {"SOURCE_DATE_EPOCH": "nix"}, {"SOURCE_DATE_EPOCH": "future"}, {"TZ": "Pacific/Kiritimati"},
+        {"TZ": "Etc/GMT+12"}, {"LC_ALL": "tr_TR.UTF-8", "LANG": "tr_TR.UTF-8"}, {"PYTHONUTF8": "0", "PYTHONIOENCODING": "latin-1"}]
+
+
+def h_env(p):
+    return dict(env=ENVS[p.choose(len(ENVS), "environment")], module_directory=bool(p.choose(2, "module_directory")))
+
+
+def on_env(p, r, exc, acc):
+    from symx import realproc
+    same, compiled, after = realproc.call("stamp_probe", r["env"], r["module_directory"])
+    acc.replayed += 1
+    acc.tags["ran"] += 1
+    acc.vcs += 3
+    desc = dict(environment=r["env"], module_directory=r["module_directory"])
+    if not same or compiled != 1:
+        acc.candidate(kind="not-stable-under-environment", input=desc, detail="4 get_template calls with nothing changing: same object %s, %d compilations" % (same, compiled))
+    elif after != "version 2":
+        acc.candidate(kind="stale-under-environment", input=desc, detail="after an edit stamped 30 s later the lookup serves %r" % (after,))
+    acc.sample(dict(desc, same_object=same, compilations=compiled, after_edit=after))
+
+
+# ------------------------------------------------------------------ directory priority through the mako-render command
+def h_cmd(p):
+    header_in = {d: bool(p.choose(2, "header_in_" + d)) for d in ("overrides", "base", "elsewhere")}
+    page_in = ["base", "overrides", "elsewhere"][p.choose(3, "page_in")]
+    template_dirs = [[], ["overrides", "base"], ["base", "overrides"], ["overrides"], ["base"]][p.choose(5, "template_dirs")]
+    return dict(cfg=dict(header_in=header_in, page_in=page_in, template_dirs=template_dirs))
+
+
+def on_cmd(p, r, exc, acc):
+    from symx import realproc
+    got, want = realproc.call("cmd_priority_probe", r["cfg"])
+    acc.replayed += 1
+    acc.tags["ran"] += 1
+    acc.vcs += 1
+    if got != want:
+        acc.candidate(kind="command-line-directory-priority", input=dict(cmd=r["cfg"]), detail="mako-render wrote %r, the first configured directory holding the URI gives %r" % (got, want))
+    acc.sample(dict(r["cfg"], output=got))
+
+
+
 def make_replay(c):
     body = '''
 # the counterexample is a pre-state of the inductive step; replay it with real files, a real clock offset and the real lookup
@@ -392,7 +435,20 @@ print("counterexample state:", CASE)
 from mako.lookup import TemplateLookup
 from mako import util
 bad = None
-if KIND.startswith("has_template"):
+if KIND.endswith("under-environment"):
+    sys.path.insert(0, "/verif")
+    from props.realops import stamp_probe
+    same, compiled, after = stamp_probe(CASE["environment"], CASE["module_directory"])
+    print("4 get_template calls, nothing changing: same object:", same, " compilations:", compiled, "; after an edit:", repr(after))
+    if not same or compiled != 1: bad = "repeated get_template calls do not return the same Template / recompile although nothing changed"
+    elif after != "version 2": bad = "an edit stamped 30 s after the compilation is not served"
+elif KIND == "command-line-directory-priority":
+    sys.path.insert(0, "/verif")
+    from props.realops import cmd_priority_probe
+    got, want = cmd_priority_probe(CASE["cmd"])
+    print("mako-render wrote", repr(got), " expected", repr(want))
+    if got != want: bad = "the URI is not served from the first configured directory that contains it"
+elif KIND.startswith("has_template"):
     base = tempfile.mkdtemp(prefix="c14replay")
     try:
         d0, d1 = os.path.join(base, "d0"), os.path.join(base, "d1")
@@ -512,6 +568,9 @@ def run(check, tier):
     jobs = [("C14-step", h_step, on_step, "one get_template from an arbitrary valid state, %d directories" % NDIRS,
              dict(directories=NDIRS, flags="cached, filesystem_checks, exists per dir, compiles, symlink per dir, LRU/plain collection"),
              ("cached", "uncached", "reload"))]
+    jobs.append(("C14-env", h_env, on_env, "the real lookup under environment variables a deployment may set (reproducible-build epoch, time zone, "
+                 "locale, I/O encoding), with and without module directory", dict(environments=ENVS), ("ran",)))
+    jobs.append(("C14-cmd", h_cmd, on_cmd, "directory priority as seen through mako-render --template-dir", dict(), ("ran",)))
     jobs.append(("C14-put", h_put, on_put, "put_string / put_template entries served under their URI", dict(), ("ran",)))
     caps = {"quick": (1, 2, 3), "thorough": (1, 2, 3, 4)}[tier]
     for cap in caps:
